@@ -123,6 +123,49 @@ class Runner:
         ev.update(ok=True, exc="", pos="", msg="")
         return ev, obj
 
+    def mutate_session(self, o, fr, cls, root):
+        """An edge of the value graph as an assignment on a live object: build the object BEFORE the refinement,
+        serialise it, assign the one top-level attribute the refinement changed, serialise again."""
+        name = fr["name"]
+        before = dict(o)
+        props = dict(pyside.fun(o["p"]))
+        new_has = name in props
+        if fr["had"]:
+            props[name] = canon(fr["v"])
+        else:
+            props.pop(name, None)
+        before["p"] = props
+        evs = []
+        ev, obj = self.ev_construct(before, root)
+        evs.append(ev)
+        if not ev["ok"]:
+            return None                      # the predecessor is judged by its own ctor session
+        ev2, _ = self.ev_unstructure(obj, cls, root)
+        evs.append(ev2)
+        if not ev2["ok"]:
+            return None
+        ev3 = {"e": "Assign", "name": name, "o": o}
+        try:
+            a = self.pkg.attr_map(type(obj)).get(pyside.norm(name))
+            if a is None:
+                return None
+            value = self.pkg.build(pyside.fun(o["p"])[name], a.type) if new_has else None
+            setattr(obj, a.name, value)
+            ev3.update(ok=True, exc="", pos="", msg="")
+        except LookupError:
+            return None
+        except BaseException as e:                 # noqa: BLE001
+            if isinstance(e, (KeyboardInterrupt, SystemExit, MemoryError)):
+                raise
+            n_, pos, text, _ = exc_info(e)
+            ev3.update(ok=False, exc=n_, pos=pos, msg=text)
+            evs.append(ev3)
+            return evs
+        evs.append(ev3)
+        ev4, _ = self.ev_unstructure(obj, cls, root)
+        evs.append(ev4)
+        return evs
+
     def round_trip_tail(self, events, obj, cls, root):
         """Unstructure -> Structure(output) -> Unstructure, stopping at the first failure."""
         ev, w = self.ev_unstructure(obj, cls, root)
@@ -165,6 +208,11 @@ class Runner:
             if ev["ok"]:
                 self.round_trip_tail(evs, obj, cls, root)
             session("ctor", evs)
+            fr = st.get("fr") or {}
+            if fr.get("name") and st["d"] == 1 and o.get("k") == "inst" and root["kind"] != "alias":
+                evs = self.mutate_session(o, fr, cls, root)
+                if evs:
+                    session("mutate", evs)
         elif vk in ("dropreq", "enum"):
             ev, _ = self.ev_structure(w, cls, root)
             session(vk, [ev])
@@ -217,6 +265,11 @@ class Runner:
         elif sk in ("intval", "lit"):
             out.append(self.ev_structure(evs[0]["j"], cls, root)[0])
             out.append(self.ev_construct(evs[1]["o"], root)[0])
+        elif sk == "mutate":
+            before, name = evs[0]["o"], next(e["name"] for e in evs if e["e"] == "Assign")
+            after = next(e["o"] for e in evs if e["e"] == "Assign")
+            bp = pyside.fun(before["p"])
+            out = self.mutate_session(after, {"name": name, "had": name in bp, "v": bp.get(name)}, cls, root) or []
         elif sk == "unk":
             ev, obj = self.ev_structure(evs[0]["j"], cls, root)
             out.append(ev)
